@@ -76,7 +76,7 @@ theorem realIter_specTo (e : Env) (he : GenSpec e) (hp hn : ℕ → ℕ) (hhn : 
   · exact ((realIter_next e he hp hn hhn n (by omega) (hex n h)).2 L hL).2 q
 
 /-- a prime above `2^63` below `2^64` exists (Bertrand): `N = 2^63` needs no primality certificate -/
-theorem exists_prime_two63 : ∃ p, p.Prime ∧ 2 ^ 63 ≤ p ∧ p ≤ umax := by
+theorem exists_prime_ge_two63 : ∃ p, p.Prime ∧ 2 ^ 63 ≤ p ∧ p ≤ umax := by
   obtain ⟨p, hp, h1, h2⟩ := Nat.exists_prime_lt_and_le_two_mul (2 ^ 63) (by norm_num)
   refine ⟨p, hp, by omega, ?_⟩
   have hne : p ≠ 2 ^ 64 := by
